@@ -327,6 +327,8 @@ class Body:
                         self._push_op(o, work, pv)
                     if k == "Agg" and rv.get("ak") == "adt":
                         pv.aggs.add((rv["adt"], rv["variant"]))
+                    if k == "Agg" and rv.get("ak") == "closure":
+                        pv.closures.add(rv.get("closure"))
         return pv
 
     def _push_op(self, o, work, pv):
@@ -468,6 +470,7 @@ class Prov:
         self.aggs = set()
         self.decls = set()
         self.stopped = set()
+        self.closures = set()      # def paths of closures whose value flows into the slice (their bodies are not followed)
 
     def callees(self):
         """resolved and declared callee paths of every call in the slice"""
